@@ -46,6 +46,15 @@ Proof. intros c s off H. destruct (occurrences_nth c s 0 off H) as [i [-> Hi]]. 
 Example C05_fffd_facts : c05_fffd = 65533%N /\ c05_enc_is_error = false.
 Proof. split; reflexivity. Qed.
 
+(* the arguments handed to the decoder oracle and the handlers around the XML
+   oracles are the expected ones: errors="replace" in open() and in the decoder
+   call, newline=None (universal newlines), `except Exception` around
+   minidom.parseString in AndroidParser.walk *)
+Example C05_oracle_facts :
+  c05_open_errors = c05_s_replace /\ c05_decode_errors = c05_s_replace /\
+  c05_open_universal_newlines = true /\ c05_android_catches_all = true.
+Proof. repeat split; reflexivity. Qed.
+
 (* ---- positions: every offset resolves, 1-based ------------------------------------ *)
 (* for EVERY offset, also one beyond the end of the text (Entry.position adds an
    offset into entity.all to span[0], which overshoots by the length of a
